@@ -147,6 +147,8 @@ pub enum Step {
     /// client c is inside an autocommit COPY FROM STDIN (CopyInResponse received) when PAUSE db is issued; it then sends its data
     /// and CopyDone (bool: CopyFail instead)
     CopyAcrossPause(u8, bool),
+    /// RELOAD with a changed pool_size of pool db (the pool object is rebuilt) - possibly while the pool is paused and clients are held
+    ReloadDb,
 }
 
 #[derive(Clone, Debug, Serialize, Deserialize)]
@@ -171,7 +173,7 @@ impl Part for WirePart {
         true
     }
     fn rule(&self) -> String {
-        "two pools (db with 2..5 clients, db2 with one control client), histories of 4..16 steps over {autocommit statement, BEGIN, COMMIT, PAUSE / RESUME for all pools or for db only, a new statement raced against RESUME with a generated 0..4000 µs gap, a newly arriving client, two pipelined autocommit statements with PAUSE arriving while the first runs, an autocommit COPY FROM STDIN with PAUSE arriving after its CopyInResponse (finished by CopyDone or CopyFail)}, wait_paused jitter hook 0/1/3 ms, worker_threads 1/2/4. Oracle: a transaction whose first message is sent after the PAUSE reply is not received by any backend until RESUME has been sent (transactions already open keep running and COMMIT), the unpaused pool keeps answering, and after the RESUME reply every held statement completes. Non-trivial = RESUME issued while at least one client was held".into()
+        "two pools (db with 2..5 clients, db2 with one control client), histories of 4..16 steps over {autocommit statement, BEGIN, COMMIT, PAUSE / RESUME for all pools or for db only, a new statement raced against RESUME with a generated 0..4000 µs gap, a newly arriving client, two pipelined autocommit statements with PAUSE arriving while the first runs, an autocommit COPY FROM STDIN with PAUSE arriving after its CopyInResponse (finished by CopyDone or CopyFail), a RELOAD that rebuilds pool db - also while it is paused and clients are held (a reload is not a RESUME)}, wait_paused jitter hook 0/1/3 ms, worker_threads 1/2/4. Oracle: a transaction whose first message is sent after the PAUSE reply is not received by any backend until RESUME has been sent (transactions already open keep running and COMMIT), the unpaused pool keeps answering, and after the RESUME reply every held statement completes. Non-trivial = RESUME issued while at least one client was held".into()
     }
     fn cases(&self, tier: Tier) -> u64 {
         tier.pick(1_200, 16_000)
@@ -187,6 +189,7 @@ impl Part for WirePart {
             1 => Just(Step::Arrive),
             1 => (0u8..6).prop_map(Step::PipelinedAcrossPause),
             1 => ((0u8..6), prop::bool::weighted(0.25)).prop_map(|(c, f)| Step::CopyAcrossPause(c, f)),
+            1 => Just(Step::ReloadDb),
         ];
         (2u8..=5, prop_oneof![2 => Just(0u32), 2 => Just(1000u32), 1 => Just(3000u32)], prop_oneof![Just(1u8), Just(2u8), Just(4u8)], prop::collection::vec(step, 4..17))
             .prop_map(|(clients, jitter_us, workers, steps)| WireCase { clients, jitter_us, workers, steps })
@@ -198,12 +201,17 @@ impl Part for WirePart {
 }
 
 fn config(mocks: &[crate::mock::MockServer], c: &WireCase) -> PgcatConfig {
+    config_gen(mocks, c, 0)
+}
+
+/// `gen` = number of reloads so far: the pool_size of db alternates so that each reload rebuilds that pool
+fn config_gen(mocks: &[crate::mock::MockServer], c: &WireCase, gen: u32) -> PgcatConfig {
     let mut cfg = PgcatConfig::new();
     cfg.set_general("worker_threads", &c.workers.to_string());
     cfg.set_general("connect_timeout", "5000");
     for (i, name) in ["db", "db2"].iter().enumerate() {
         let servers = vec![ServerDef { host: mocks[i].ip.clone(), port: mocks[i].port, role: "primary".into() }];
-        cfg.pools.push(pgc::simple_pool(name, "u", "pw", 6, servers));
+        cfg.pools.push(pgc::simple_pool(name, "u", "pw", if i == 0 { 6 + (gen % 2) } else { 6 }, servers));
     }
     cfg
 }
@@ -248,6 +256,10 @@ async fn run_wire(c: &WireCase, ctx: &mut WorkerCtx) -> Outcome {
     };
     let mut paused_db = false;
     let mut paused_db2 = false;
+    let mut reload_gen = 0u32;
+    // a reload rebuilt the paused pool (label only)
+    #[allow(unused_assignments)]
+    let mut pause_unsettled = false;
     let mut in_txn = vec![false; n];
     // clients with a statement in flight that the pause holds: (client index, tag)
     let mut held: Vec<(usize, Tag)> = vec![];
@@ -396,6 +408,24 @@ async fn run_wire(c: &WireCase, ctx: &mut WorkerCtx) -> Outcome {
                 o.label("copy_across_pause");
                 o.nontrivial = true;
             }
+            Step::ReloadDb => {
+                reload_gen += 1;
+                env.pg.write_config(&config_gen(&env.mocks, c, reload_gen).to_toml(env.pg.port));
+                let (m, e) = admin.simple("RELOAD", wire::T_REPLY).await;
+                if !matches!(e, ReadEnd::Ready(_)) || m.iter().any(|x| x.code == b'E') {
+                    o.inconclusive = Some(format!("RELOAD of a valid file failed: {:?} {:?}", e, crate::cli::errors(&m)));
+                    break;
+                }
+                if paused_db {
+                    // a reload is not a RESUME: the rebuilt pool is still paused, and the RESUME that follows must reach the
+                    // clients held on the pool object it replaced
+                    pause_unsettled = true;
+                    o.label("reload_while_paused");
+                    if !held.is_empty() || !held_arrivals.is_empty() {
+                        o.label("reload_while_clients_held");
+                    }
+                }
+            }
             Step::Pause(only_db) => {
                 let sql = if *only_db { "PAUSE db,u" } else { "PAUSE" };
                 let (m, e) = admin.simple(sql, wire::T_REPLY).await;
@@ -451,6 +481,7 @@ async fn run_wire(c: &WireCase, ctx: &mut WorkerCtx) -> Outcome {
                     fail_and_finish!("resume-command-failed", format!("{} -> {:?} {:?}", sql, e, crate::cli::errors(&m)));
                 }
                 paused_db = false;
+                pause_unsettled = false;
                 if !only_db {
                     paused_db2 = false;
                 }
